@@ -22,6 +22,8 @@ def tasks(tier, seed):
                 t.append(("contracts.gemini_invariance", "task", (cls, ovo, n, K, "onehot", seed), to, tag + ",onehot]"))
                 if (n, K) != (3, 3):
                     t.append(("contracts.gemini_invariance", "task", (cls, ovo, n, K, "empty", seed), to, tag + ",empty]"))
+                if (n, K) == (2, 2):
+                    t.append(("contracts.gemini_invariance", "task", (cls, ovo, n, K, "empty2", seed), to, tag + ",empty2]"))
     return t
 
 
